@@ -360,6 +360,12 @@ class Kill:
 
     SETTLE = ("user", "indirect", "handle_drop", "return", "resume", "free", "abort", "panic")
 
+    def on_moveout(self, eng, ev, st):
+        # a table seen empty and then moved out of its allocation stays "seen empty" for this rule
+        if ev.field == "links" and st.empty(ev.box) is True:
+            return add(st, ("purged", ev.box))
+        return None
+
     def on_event(self, eng, ev, st):
         if ev.kind not in self.SETTLE:
             return None
